@@ -10,6 +10,7 @@ package main
 import (
 	"crypto/tls"
 	"fmt"
+	"go.nanomsg.org/mangos/v3/protocol/sub"
 	"net"
 	"os"
 	"strings"
@@ -102,6 +103,7 @@ func runC12(c *Ctx) {
 		for _, scheme := range []string{"tcp", "ipc", "inproc", "ws", "tls+tcp", "wss"} {
 			c12ListenErrors(c, scheme)
 			c12DialErrors(c, scheme)
+			c12WrongProtoPeer(c, scheme)
 		}
 		for _, scheme := range []string{"tcp", "ipc", "tls+tcp", "ws"} {
 			c12BadPeers(c, scheme)
@@ -314,6 +316,47 @@ func c12BadPeers(c *Ctx, scheme string) {
 	for _, cn := range keep {
 		_ = cn.Close()
 	}
+}
+
+// a socket of the wrong protocol dials (a mangos socket, on every transport including inproc): it is turned away, and
+// the listener keeps admitting the right peers afterwards
+func c12WrongProtoPeer(c *Ctx, scheme string) {
+	c12seq++
+	a, _ := pair.NewSocket()
+	defer a.Close()
+	l, err := a.NewListener(c12addr(scheme, c12seq), lopts(scheme))
+	if err != nil || l.Listen() != nil {
+		return
+	}
+	addr := l.Address()
+	r := &c12run{c: c, cas: scheme + " listener: a socket of another protocol (SUB to a PAIR listener) dials"}
+	for i := 0; i < 2; i++ {
+		w, _ := sub.NewSocket()
+		_ = w.SetOption(mangos.OptionDialAsynch, false)
+		r.follow("the wrong-protocol Dial returns", "any", func() error { return w.DialOptions(addr, dopts(scheme)) })
+		time.Sleep(20 * time.Millisecond)
+		_ = w.Close()
+	}
+	r.follow("listener.GetOption", "any", func() error { _, e := l.GetOption(mangos.OptionMaxRecvSize); return e })
+	for i := 0; i < 2; i++ {
+		r.follow("a peer of the right protocol connects and talks", "ok", func() error {
+			b, _ := pair.NewSocket()
+			defer b.Close()
+			_ = b.SetOption(mangos.OptionSendDeadline, time.Second)
+			_ = a.SetOption(mangos.OptionRecvDeadline, time.Second)
+			if e := b.DialOptions(addr, dopts(scheme)); e != nil {
+				return e
+			}
+			time.Sleep(30 * time.Millisecond)
+			if e := b.Send([]byte("hello")); e != nil {
+				return e
+			}
+			_, e := a.Recv()
+			return e
+		})
+		time.Sleep(30 * time.Millisecond)
+	}
+	r.follow("listener.Close", "ok", func() error { return l.Close() })
 }
 
 // TLS configuration errors can be corrected on the same listener / dialer
